@@ -323,11 +323,26 @@ type Getter struct {
 	// what it returned for an earlier request is overwritten by the next one. A library must not keep references into it.
 	ReuseBuffer bool
 	buf         []byte
+	// Seq, when it has an entry for a URL, scripts SUCCESSIVE answers to requests for it (the last one repeats): an endpoint
+	// may answer the same URL differently when it is asked again.
+	Seq  map[string][]Resp
+	asks map[string]int
 }
 
 func (g *Getter) Get(u string) (map[string][]string, []byte, error) {
 	g.Log = append(g.Log, u)
 	r, ok := g.R[u]
+	if sq := g.Seq[u]; len(sq) > 0 {
+		if g.asks == nil {
+			g.asks = map[string]int{}
+		}
+		k := g.asks[u]
+		g.asks[u] = k + 1
+		if k >= len(sq) {
+			k = len(sq) - 1
+		}
+		r, ok = sq[k], true
+	}
 	if !ok {
 		return nil, nil, fmt.Errorf("scripted getter: no response for %s", u)
 	}
